@@ -8,12 +8,13 @@ Rec == ndJsonDeserialize(IOEnv.TRACE)
 
 Failed(e) ==
   CASE e.op = "distance" ->
+         IF e.panic THEN {"C19_DistanceTotal"} ELSE
          (IF e.obs # Distance(e.a, e.b) THEN {"C19_Distance"} ELSE {})
          \cup (IF e.obs_rev # e.obs THEN {"C19_Symmetric"} ELSE {})
          \cup (IF (e.obs = 0) # (e.a = e.b) THEN {"C19_ZeroIffEqual"} ELSE {})
     [] e.op = "xorcmp" ->
          (IF e.obs # XorCmp(e.a, e.b, e.t) THEN {"C19_XorOrder"} ELSE {})
-         \cup (IF e.da < e.db /\ e.obs # -1 THEN {"C19_DistanceConsistentWithXor"} ELSE {})
+         \cup (IF e.da >= 0 /\ e.db >= 0 /\ e.da < e.db /\ e.obs # -1 THEN {"C19_DistanceConsistentWithXor"} ELSE {})
     [] e.op = "parse" ->
          (IF e.panic THEN {"C19_ParseTotal"} ELSE {})
          \cup (IF ~e.panic /\ e.ok # ParseOk(e.s) THEN {"C19_ParseAcceptsExactly40Hex"} ELSE {})
